@@ -55,6 +55,9 @@ CHECKS = {
  "C16": ("bounded-exhaustive enumeration of token sequences x trivia assignments x formatter configurations; typed-tree, literal-spelling, comment-anchor and idempotence oracles",
          "every token sequence up to the length bound over a 16-token alphabet with every (or every <=2-heavy-slot) assignment of whitespace / blank lines / comments between tokens and at both ends, optional hash-bang and missing final newline, under 9 formatter configurations (default, compact, compact+strip, indent 4, MaxBlankLines 0/2, custom rule tables): rejected input must be rejected with no output; accepted input must format to text whose strict parse is the same typed tree (LVal equality AND an independent walker over a re-lex that keeps literal spellings, quoting and bracket kinds), with the identical ordered comment list anchored before the same expressions, and Format(Format(x)) == Format(x) byte for byte",
          "most of the space goes through FormatProgram on a string scanner; sub-spaces through the real formatter.Format entry point must agree byte for byte; blank-line placement and indentation are free"),
+ "C17": ("bounded-exhaustive enumeration of statically scoped programs (7 grammar families, multi-file sessions) x minifier options; differential evaluation original vs minified plus symbol-map inversion",
+         "every program of seven grammar families (local binding forms, top-level definitions and redefinition, parameter styles and keyword calls, keyword/quoted data, packages / export / use-package / qualified names / two-file sessions / macros with quasiquote templates, names in the minifier's own x<N> scheme) up to a per-family node bound, under default options, --rename-exports, --preserve-params=false (sessions without keyword arguments) and exclusions: Minify twice must be byte-identical (output and symbol map), the output must be accepted by the strict reader, a parallel walk of original and minified trees must show the same shape with the map inverting every rename, original and minified must evaluate to the same value / output / condition in fresh runtimes, and exported / top-level-set / excluded names must evaluate the same afterwards",
+         "the statement's preconditions (no computed symbols, no function designators as quoted data, no global definitions inside function bodies) are enforced by construction of the grammar; function values are normalised"),
  "C18": ("bounded-exhaustive enumeration of failing programs (error kind x context nesting x layout) against a reference interpreter that carries source positions and the active-call chain",
          "every error kind (unbound symbol, error, type error, arity, error inside a called function, failing macro-template form, failing macro-built form, set! of an unbound name, tail and non-tail recursion ending in an error) at every position of every nesting up to the depth bound over 25 contexts, in 3 source layouts; the real error's location must be the position of the form the reference blames and lie in the source; the stack trace with elimination off must equal the reference's active-call chain (names and call-site positions), with elimination on it must be equal unless a function is re-entered, in which case an order-preserving subsequence keeping the outermost frame and all non-tail frames; also through rethrow",
          "call-site positions of handler invocations are unspecified (no call expression); anonymous functions are compared by position only"),
